@@ -537,6 +537,26 @@ func (s *sim) scheduleWriters() {
 	// Validated messages are handed to the event loop one per quiescence, ordered by content: with
 	// several validation workers or asynchronous validators the hand-off order would otherwise be
 	// the Go scheduler's choice.
+	// ... and so are message batches (two PublishBatch calls woken by the same event race for the
+	// one slot of the hand-off channel otherwise)
+	verifYieldBatchFn = func(b *MessageBatch, point int) {
+		if point != verifSendBatch {
+			return
+		}
+		name := "~batch empty"
+		b.mu.Lock()
+		if len(b.messages) > 0 {
+			mb, _ := b.messages[0].Message.Marshal()
+			name = fmt.Sprintf("~batch %x n=%d", shortHash(mb), len(b.messages))
+		}
+		b.mu.Unlock()
+		pw := &popWaiter{ch: make(chan struct{}), name: name}
+		s.mu.Lock()
+		s.popWait = append(s.popWait, pw)
+		s.mu.Unlock()
+		s.poke()
+		<-pw.ch
+	}
 	verifYieldMsgFn = func(msg *Message, point int) {
 		if point != verifSendValidated {
 			return
@@ -584,6 +604,7 @@ func (s *sim) queueName(q *rpcQueue, base string) string {
 func (s *sim) releaseWriters() {
 	verifYieldQueueFn = nil
 	verifYieldMsgFn = nil
+	verifYieldBatchFn = nil
 	s.mu.Lock()
 	pops := s.popWait
 	s.popWait = nil
